@@ -8,8 +8,10 @@ import (
 	"os"
 	"path/filepath"
 	"sort"
+	"strconv"
 	"strings"
 	"sync"
+	"sync/atomic"
 	"time"
 )
 
@@ -39,29 +41,38 @@ type Run struct {
 	Cross   bool
 	t0      time.Time
 
-	mu         sync.Mutex
-	Results    []*OblResult
-	Violations []string // printed lines
-	Known      []string
-	Undecided  []string
+	mu          sync.Mutex
+	Results     []*OblResult
+	Violations  []string // printed lines
+	Known       []string
+	Undecided   []string
 	Assumptions map[string]bool
-	Trusted    map[string]bool
-	Notes      map[string]interface{}
-	Funcs      map[string]string // function under contract -> how (hand-written / schema / inlined)
-	Stale      []string
-	Bounded    []string
-	engineErr  []string
-	only       string
-	samples    []map[string]interface{}
+	Trusted     map[string]bool
+	Notes       map[string]interface{}
+	Funcs       map[string]string // function under contract -> how (hand-written / schema / inlined)
+	Stale       []string
+	Bounded     []string
+	aborted     bool // a family was cut short after many failures: no second rounds
+	deadline    time.Time
+	overBudget  int
+	engineErr   []string
+	only        string
+	samples     []map[string]interface{}
 }
 
 func newRun(prop, tier, verif, repo string, seed int64) *Run {
 	r := &Run{Prop: prop, Tier: tier, Seed: seed, Verif: verif, Out: verif, Repo: repo, t0: time.Now(), Timeout: 20,
 		Assumptions: map[string]bool{}, Trusted: map[string]bool{}, Notes: map[string]interface{}{}, Funcs: map[string]string{}}
+	budget := 600
 	if tier == "thorough" {
 		r.Timeout = 120
 		r.Cross = true
+		budget = 3 * 3600
 	}
+	if v, err := strconv.Atoi(os.Getenv("VERIF_BUDGET_S")); err == nil && v > 0 {
+		budget = v
+	}
+	r.deadline = r.t0.Add(time.Duration(budget) * time.Second)
 	for _, t := range []string{"go/types + go/ssa lowering of the working tree (x/tools v0.29.0)", "vcheck SSA->SMT encoder and simplifier (/verif/engine)",
 		"SMT solvers z3 5.1.0 / cvc5 1.0.3 / z3 4.8.12", "spec functions under /verif/spec (reference semantics)"} {
 		r.Trusted[t] = true
@@ -150,7 +161,24 @@ func (r *Run) pipeline(n int, gen func(i int) (*VC, error)) []*OblResult {
 	out := make([]*OblResult, n)
 	var wg sync.WaitGroup
 	sem := make(chan struct{}, 16)
+	var notOK int32
+	skipped := 0
 	solve := func(i int, timeout int, second bool) {
+		if time.Now().After(r.deadline) {
+			r.mu.Lock()
+			r.overBudget++
+			r.aborted = true
+			r.mu.Unlock()
+			return
+		}
+		if atomic.LoadInt32(&notOK) >= 48 && !second {
+			// a broken tree: enough obligations of this family have failed to
+			// report the violation; the rest of the family is not attempted
+			r.mu.Lock()
+			skipped++
+			r.mu.Unlock()
+			return
+		}
 		vc, err := gen(i)
 		if err != nil {
 			r.mu.Lock()
@@ -179,9 +207,13 @@ func (r *Run) pipeline(n int, gen func(i int) (*VC, error)) []*OblResult {
 		case "sat":
 			or.Status = "failed"
 			or.Failed = res.Failed
+			atomic.AddInt32(&notOK, 1)
 		default:
 			or.Status = "undecided"
 			or.Note = res.Status + ": " + firstLine(res.Raw)
+			if !second {
+				atomic.AddInt32(&notOK, 1)
+			}
 		}
 		out[i] = or
 	}
@@ -195,13 +227,19 @@ func (r *Run) pipeline(n int, gen func(i int) (*VC, error)) []*OblResult {
 		}(i)
 	}
 	wg.Wait()
+	if skipped > 0 {
+		r.aborted = true
+		r.mu.Lock()
+		r.Notes["skipped_after_failures"] = fmt.Sprintf("%d obligation groups were not attempted after 48 of their family had failed", skipped)
+		r.mu.Unlock()
+	}
 	var again []int
 	for i, o := range out {
 		if o != nil && o.Status == "undecided" {
 			again = append(again, i)
 		}
 	}
-	if len(again) > 0 && len(again) <= 64 {
+	if len(again) > 0 && len(again) <= 16 {
 		sem2 := make(chan struct{}, 4)
 		for _, i := range again {
 			wg.Add(1)
@@ -319,6 +357,13 @@ func (r *Run) finish(checkerCmd string) int {
 		r.Prop, r.Tier, obl, dis, len(r.Violations), len(r.Undecided), time.Since(r.t0).Seconds(), ss)
 	for _, k := range r.Known {
 		fmt.Printf("KNOWN-FINDING: property=%s %s\n", r.Prop, k)
+	}
+	if r.overBudget > 0 {
+		msg := fmt.Sprintf("time budget exceeded: %d obligation groups were not attempted (this does not happen on the unchanged tree)", r.overBudget)
+		fmt.Println("BUDGET:", msg)
+		if len(r.Violations) == 0 {
+			r.Undecided = append(r.Undecided, msg)
+		}
 	}
 	if len(r.Violations) > 0 {
 		return 1
